@@ -172,6 +172,7 @@ type optSnap struct {
 	vir      string
 	virNoName string
 	paths    []string
+	pathItems [][]string
 	nArgs    int
 	hasDflt  bool
 }
@@ -194,6 +195,11 @@ func snapOpt(o ast.Option) optSnap {
 	s.virNoName = virOption(o2)
 	for _, a := range o.Assignments {
 		s.paths = append(s.paths, virPath(a.Path))
+		items := []string{}
+		for _, it := range a.Path {
+			items = append(items, virPathItem(it))
+		}
+		s.pathItems = append(s.pathItems, items)
 	}
 	return s
 }
@@ -727,12 +733,73 @@ func c17CheckBuilderStep(st vStep, who string, before, after []bSnap, sel []bool
 				return
 			}
 		}
+		if st.kind == "merge_into" {
+			c17CheckMergeInto(st, who, before, after, sel, setFail)
+		}
 		if st.kind == "rename" {
 			for i := range before {
 				if sel[i] && (before[i].headNoName != after[i].headNoName || strings.Join(optVirs(before[i].opts), "\n") != strings.Join(optVirs(after[i].opts), "\n")) {
 					setFail(fmt.Sprintf("FAIL contract-rename(%s): builder %s changed in more than its name", who, before[i].key))
 					return
 				}
+			}
+		}
+	}
+}
+
+// merge_into contract: the options appended to the destination are the source's options (minus the
+// excluded ones), in order, each assignment targeting `under_path ++ <the source assignment's path>`:
+// one common prefix, the source path as suffix ("still assign the same target", under the new root).
+func c17CheckMergeInto(st vStep, who string, before, after []bSnap, sel []bool, setFail func(string)) {
+	m := st.b.MergeInto
+	for i := range before {
+		if !sel[i] || len(after[i].opts) < len(before[i].opts) {
+			continue
+		}
+		pkg := before[i].key[:strings.IndexByte(before[i].key, '.')]
+		srcIdx := -1
+		for x := range before {
+			if strings.HasPrefix(before[x].key, pkg+".") && strings.HasSuffix(before[x].key, "/"+m.Source) {
+				srcIdx = x
+				break
+			}
+		}
+		if srcIdx < 0 || (sel[srcIdx] && srcIdx <= i) {
+			continue // no source, or the source was itself rewritten earlier in this step
+		}
+		want := []optSnap{}
+		for _, o := range before[srcIdx].opts {
+			excluded := false
+			for _, e := range m.ExcludeOptions {
+				excluded = excluded || e == o.name
+			}
+			if !excluded {
+				want = append(want, o)
+			}
+		}
+		got := after[i].opts[len(before[i].opts):]
+		if len(got) != len(want) {
+			continue // under_path did not resolve: the builder is returned untouched
+		}
+		prefix := ""
+		havePrefix := false
+		for k := range want {
+			if len(got[k].pathItems) != len(want[k].pathItems) {
+				setFail(fmt.Sprintf("FAIL contract-merge_into(%s): merged option %s of %s has another number of assignments than the source option", who, got[k].name, before[i].key))
+				return
+			}
+			for a := range want[k].pathItems {
+				src, dst := want[k].pathItems[a], got[k].pathItems[a]
+				if len(dst) < len(src) || strings.Join(dst[len(dst)-len(src):], " ") != strings.Join(src, " ") {
+					setFail(fmt.Sprintf("FAIL contract-merge_into(%s): merged option %s of %s no longer assigns the source option's target under the new root", who, got[k].name, before[i].key))
+					return
+				}
+				p := strings.Join(dst[:len(dst)-len(src)], " ")
+				if havePrefix && p != prefix {
+					setFail(fmt.Sprintf("FAIL contract-merge_into(%s): merged options of %s are not all under the same path", who, before[i].key))
+					return
+				}
+				prefix, havePrefix = p, true
 			}
 		}
 	}
